@@ -1,14 +1,17 @@
 import PMV.Proofs.Hoist
 import PMV.Proofs.Rename
 import PMV.Generated.Names
+import PMV.Proofs.HoistCollect
 /-
   C06 — Hoisted literals are bound once, before use, to an identical value.
   Proved on the placement model: the namespace chosen for an alias encloses every use; the assignment
   is inserted after docstring / `__future__` statements only and keeps the order of everything else;
   the alias name clashes with no name of any binding whose scope it shares (C03.no_new_clash applies
-  to hoisted bindings as to any other).  Which literals are collected (exclusions for patterns,
-  `__slots__`, f-string text, literal statements) and value identity of the key are decided by the
-  oracle on the real code.
+  to hoisted bindings as to any other).  Which literals are collected is proved on the model of the
+  collecting traversal (`PMV.HoistCollect`, T06.4): exactly the literal occurrences outside match patterns,
+  string statements and class-level `__slots__` assignments.  The literal text of f-strings is not an
+  expression of the model's AST (the correspondence settles that the real traversal skips it); value
+  identity of the key is decided by the oracle on the real code.
 -/
 namespace PMV.C06
 open PMV.Hoist
@@ -41,5 +44,53 @@ theorem unhoisted_introduces_nothing (names : List String) (pg : Bool) (a : Rena
 example : place [[0, 3, 7], [0, 3, 9], [0, 3]] = some 3 := by decide
 example : insertStmt (fun s : String => s == "doc" || s == "future") "A='x'" ["doc", "future", "import os", "doc"]
     = ["doc", "future", "A='x'", "import os", "doc"] := by decide
+
+/-! ### T06.4: which literals are collected (and therefore may be replaced) -/
+open PMV PMV.HoistCollect in
+/-- T06.4: the traversal collects exactly the literal occurrences of the module in which every match pattern, every
+    string statement and every assignment to `__slots__` in a class namespace has been erased (`blank`) — nothing
+    from those positions at any depth, everything from all others, in source order. -/
+theorem collected_exactly_outside_exclusions (m : Module) : collect m = allLits (blank m) :=
+  colL_blank false m.body
+
+open PMV PMV.HoistCollect in
+/-- T06.4b: only `None`, `True`, `False`, strings and bytes are ever collected (numbers and `...` never are). -/
+theorem collected_are_hoistable (m : Module) : ∀ c ∈ collect m, hoistable c = true :=
+  colL_hoistable false m.body
+
+open PMV PMV.HoistCollect in
+/-- T06.4c: a string or bytes statement (a docstring, wherever it stands) contributes nothing. -/
+theorem string_statement_never_collected (cls : Bool) (v : Expr) (h : isStrConst v = true) : colS cls (.expr v) = [] := by
+  simp only [colS, h, if_true]
+
+open PMV PMV.HoistCollect in
+/-- T06.4d: an assignment (plain, augmented, annotated) to `__slots__` whose namespace is a class contributes nothing,
+    whatever its value holds. -/
+theorem class_slots_never_collected (ts : List Expr) (tg v ann : Expr) (op : BinOpK) (ov : Option Expr) (s : Bool)
+    (hts : ts.any isSlotsName = true) (htg : isSlotsName tg = true) :
+    colS true (.assign ts v) = [] ∧ colS true (.augAssign tg op v) = [] ∧ colS true (.annAssign tg ann ov s) = [] := by
+  simp [colS, hts, htg]
+
+open PMV PMV.HoistCollect in
+/-- T06.4e: what is collected from a `match` statement does not depend on its patterns. -/
+theorem patterns_never_collected (cls : Bool) (s : Expr) (p p' : Pattern) (g : Option Expr) (body : List Stmt) (rest : List MatchCase) :
+    colS cls (.match_ s (.mk p g body :: rest)) = colS cls (.match_ s (.mk p' g body :: rest)) := by
+  simp only [colS, colC]
+
+open PMV PMV.HoistCollect in
+/-- T06.4f: outside a class namespace a `__slots__` assignment is an ordinary one (the exclusion is not wider than stated). -/
+theorem function_level_slots_collected (ts : List Expr) (v : Expr) : colS false (.assign ts v) = colEs ts ++ colE v := by
+  simp [colS]
+
+-- non-vacuity: a class with `__slots__` inside an `if`, a docstring, a method with a `match` and an f-string
+open PMV PMV.HoistCollect in
+example : collect ⟨[.classDef "C" [] [] [
+      .expr (.constant (.str "'doc'" [100])),
+      .if_ (.constant .true_) [.assign [.name "__slots__" .store] (.tuple [.constant (.str "'a'" [97])])] [],
+      .functionDef false "f" (.mk [] [] none [] [] none []) [
+        .assign [.name "__slots__" .store] (.constant (.str "'a'" [97])),
+        .match_ (.constant (.str "'a'" [97])) [.mk (.matchValue (.constant (.str "'a'" [97]))) (some (.constant .none))
+          [.return_ (some (.joinedStr "f'a{1}'" [.constant (.int 1), .constant (.bytes "b'a'" [97])]))]]] [] none []] [] []]⟩
+    = [.true_, .str "'a'" [97], .str "'a'" [97], .none, .bytes "b'a'" [97]] := by decide
 
 end PMV.C06
